@@ -281,10 +281,17 @@ func NewMessageDef(name, msgType string, parts []MessagePart) *MessageDef {
 
 		switch pType := part.(type) {
 		case messagePartWithFields:
+			// Field if required in component is required in message only if
+			// component is required, and so are the components it is nested in.
+			requiredInContext := make(TagSet)
+			if pType.Required() {
+				for _, f := range pType.RequiredFields() {
+					requiredInContext.Add(f.Tag())
+				}
+			}
 			for _, f := range pType.Fields() {
-				// Field if required in component is required in message only if
-				// component is required.
-				processField(f, pType.Required())
+				_, required := requiredInContext[f.Tag()]
+				processField(f, required)
 			}
 
 		case *FieldDef:
